@@ -127,8 +127,15 @@ theorem asListArg (v : RVal) (pos : Pos) : Allocates (asListArg v pos) := by
   unfold Ckl.asListArg; have := fun c => collAsList c; alloc!
 theorem asSetArg (v : RVal) (pos : Pos) : Allocates (asSetArg v pos) := by
   unfold Ckl.asSetArg; have := fun xs => addSet xs; alloc!
+theorem dateResM (r : DateRes) (pos : Pos) : Allocates (dateResM r pos) := by
+  unfold Ckl.dateResM; alloc!
+theorem callDate (name : String) (args : List (String × RVal)) (pos : Pos) (m : EvalM RVal)
+    (h : callDate name args pos = some m) : Allocates m := by
+  unfold Ckl.callDate at h
+  split at h <;> first | (injection h with h; subst h; exact dateResM _ _) | (cases h)
 theorem nativeAdd (a b : RVal) (pos : Pos) : Allocates (nativeAdd a b pos) := by
   unfold Ckl.nativeAdd
+  have := fun r p => dateResM r p
   have := fun c => collAsList c
   have := fun x p w => floatResult x p w
   have := fun xs => addSet xs
@@ -136,6 +143,7 @@ theorem nativeAdd (a b : RVal) (pos : Pos) : Allocates (nativeAdd a b pos) := by
   alloc!
 theorem nativeSub (a b : RVal) (pos : Pos) : Allocates (nativeSub a b pos) := by
   unfold Ckl.nativeSub
+  have := fun r p => dateResM r p
   have := fun c => collAsList c
   have := fun x p w => floatResult x p w
   alloc!
